@@ -92,7 +92,7 @@ func Generate(r *vk.RNG, p Profile) *App {
 		si := symInfo{name: "slang", size: 16}
 		g.syms = append(g.syms, si)
 		codes := []string{}
-		pool := []string{"nor", "eng", "swa", "fr", "de", "no", "xx", "zzz", "klingon", "", "fra"}
+		pool := []string{"nor", "eng", "swa", "fr", "de", "no", "xx", "zzz", "klingon", "", "fra", "fre", "ger", "dut", "NOR", "fra "}
 		for k := 0; k < r.Range(1, 4); k++ {
 			codes = append(codes, vk.Pick(r, pool))
 		}
@@ -467,6 +467,9 @@ func (g *gen) catchNode(names []string) *Node {
 	variant := 0
 	if g.p.CatchVariants {
 		variant = r.Intn(4)
+		if g.p.EndNodes && r.Chance(1, 3) {
+			variant = 4 + r.Intn(2) // the error handler is itself an end node
+		}
 	}
 	switch variant {
 	case 0:
@@ -477,6 +480,10 @@ func (g *gen) catchNode(names []string) *Node {
 		n.Code = []codec.Ins{{Op: codec.HALT}, {Op: codec.INCMP, S1: "_", S2: "0"}}
 	case 3:
 		n.Code = []codec.Ins{{Op: codec.MOUT, S1: "lback", S2: "0"}, {Op: codec.HALT}, {Op: codec.MOVE, S1: "_"}}
+	case 4:
+		n.Code = []codec.Ins{{Op: codec.MOUT, S1: "lback", S2: "0"}} // ends without HALT
+	case 5:
+		n.Code = []codec.Ins{} // a page and nothing else
 	}
 	return n
 }
